@@ -115,12 +115,31 @@ def matches(sel, node):
         return True
     if sel.startswith("#"):
         return sel[1:] == node["id"]
+    classes = (node.get("cls") or "").split()
     if sel.startswith("."):
-        return node.get("cls") == sel[1:]
+        return sel[1:] in classes
     if "." in sel:
         t, c = sel.split(".", 1)
-        return node["tag"] == t and node.get("cls") == c
+        return node["tag"] == t and c in classes
     return node["tag"] == sel
+
+
+CLASS_LIST_ORDER = [False]  # set to True to evaluate the cascade the way the library orders the rules of a class list
+
+
+def _library_order(sel, node, order):
+    """the order in which the library applies matching rules: *, type, then per class token in attribute order
+    (.c, type.c), then #id - instead of specificity, then stylesheet order"""
+    classes = (node.get("cls") or "").split()
+    if sel == "*":
+        return (0, 0, 0, order)
+    if sel.startswith("#"):
+        return (3, 0, 0, order)
+    if sel.startswith("."):
+        return (2, classes.index(sel[1:]), 0, order)
+    if "." in sel:
+        return (2, classes.index(sel.split(".", 1)[1]), 1, order)
+    return (1, 0, 0, order)
 
 
 def specified(node, css):
@@ -133,9 +152,10 @@ def specified(node, css):
     for order, rule in enumerate(css or []):
         for sel in rule["sel"] if isinstance(rule["sel"], list) else [rule["sel"]]:
             if matches(sel, node):
-                hits.append((specificity(sel), order, rule["decl"]))
-    hits.sort(key=lambda h: (h[0], h[1]))
-    for _, _, decl in hits:
+                key = _library_order(sel, node, order) if CLASS_LIST_ORDER[0] else (specificity(sel), order)
+                hits.append((key, rule["decl"]))
+    hits.sort(key=lambda h: h[0])
+    for _, decl in hits:
         vals.update(decl)
     vals.update(node.get("style") or {})
     return vals
